@@ -1,4 +1,285 @@
-import EE.Model.Program
+import EE.Lemmas.Lex
+import EE.Lemmas.Tie
+import EE.Model.BuiltinRegs
+/-! # C10 — tokens tile the input and carry the exact source text
+
+Text is `List Char`; byte offsets are `utf8Len` of a prefix, which is precisely "on a character
+boundary". All theorems hold for an arbitrary registry (`regs`), i.e. for the built-in operator
+set and for every set extended by registered symbolic and word operators; only `longest_match`
+needs a hypothesis on the set (prefix closure), which is proved for the built-in set. -/
 namespace EE.Props.C10
-theorem placeholder : True := trivial
+open EE
+
+/-- `Tiling pos cs toks`: starting at byte offset `pos` with `cs` still to read, the tokens `toks`
+are laid out left to right, separated by whitespace only, each covering a non-empty run of
+characters `consumed` with `start`/`stop` the byte offsets of that run and the payload that run;
+what remains after the last token is whitespace. -/
+inductive Tiling : Nat → Text → List SpTok → Prop
+  | done {pos : Nat} {cs : Text} : (∀ c ∈ cs, isWs c = true) → Tiling pos cs []
+  | tok {pos : Nat} {cs ws consumed rest : Text} {t : SpTok} {ts : List SpTok} : cs = ws ++ (consumed ++ rest) → (∀ c ∈ ws, isWs c = true) →
+      consumed ≠ [] → t.start = pos + utf8Len ws → t.stop = t.start + utf8Len consumed →
+      Payload t.tok consumed → Tiling t.stop rest ts → Tiling pos cs (t :: ts)
+
+theorem lexAll_tiling (regs : Regs) (fuel : Nat) : ∀ (cs : Text) (pos : Nat) (toks : List SpTok),
+    lexAll regs fuel cs pos = .ok toks → Tiling pos cs toks := by
+  induction fuel with
+  | zero => intro cs pos toks h; rw [lexAll_zero] at h; cases h
+  | succ fuel ih =>
+    intro cs pos toks h
+    rw [lexAll_succ] at h
+    have hsp := span_append isWs cs
+    have hall := span_all isWs cs
+    cases hrest : (span isWs cs).2 with
+    | nil =>
+      rw [hrest] at h hsp
+      simp only [Res.ok.injEq] at h; subst h
+      refine Tiling.done ?_
+      rw [← hsp]; simpa using hall
+    | cons c cs' =>
+      rw [hrest] at h hsp
+      simp only at h
+      cases hl : lexOne regs c cs' (pos + utf8Len (span isWs cs).1) with
+      | ok p =>
+        obtain ⟨t, rest'⟩ := p
+        rw [hl] at h
+        simp only [Res.bind_ok] at h
+        cases hr : lexAll regs fuel rest' t.stop with
+        | ok ts =>
+          rw [hr] at h; simp only [Res.bind_ok, Res.ok.injEq] at h; subst h
+          obtain ⟨consumed, hc⟩ := lexOne_spec regs c cs' _ t rest' hl
+          exact Tiling.tok (by rw [hc.split] at hsp; exact hsp.symm) hall hc.nonempty hc.start_eq (by rw [hc.stop_eq, hc.start_eq]) hc.payload
+            (ih rest' t.stop ts hr)
+        | err e => rw [hr] at h; simp at h
+        | panic => rw [hr] at h; simp at h
+        | deadlock => rw [hr] at h; simp at h
+        | hang => rw [hr] at h; simp at h
+        | unmodelled => rw [hr] at h; simp at h
+      | err e => rw [hl] at h; simp at h
+      | panic => rw [hl] at h; simp at h
+      | deadlock => rw [hl] at h; simp at h
+      | hang => rw [hl] at h; simp at h
+      | unmodelled => rw [hl] at h; simp at h
+
+/-- **Tokens tile the input.** -/
+theorem tiling (regs : Regs) (s : Text) (toks : List SpTok) (h : tokenize regs s = .ok toks) : Tiling 0 s toks :=
+  lexAll_tiling regs _ s 0 toks h
+
+/-- Spans are in bounds, on character boundaries and carry the exact source text: every token's
+`[start, stop)` is `[utf8Len pre, utf8Len (pre ++ mid))` for a split `input = pre ++ mid ++ post`,
+and its payload is `mid` (for a string token: `mid` = quote, the payload verbatim, the same quote). -/
+theorem spans_exact : ∀ (pos : Nat) (cs : Text) (toks : List SpTok) (before : Text),
+    Tiling pos cs toks → pos = utf8Len before →
+    ∀ t ∈ toks, ∃ pre mid post, before ++ cs = pre ++ (mid ++ post) ∧ mid ≠ [] ∧
+      t.start = utf8Len pre ∧ t.stop = utf8Len (pre ++ mid) ∧ Payload t.tok mid
+  | _, _, _, _, .done _, _ => by intro t ht; cases ht
+  | pos, cs, _, before, .tok (ws := ws) (consumed := consumed) (rest := rest) (t := t0) (ts := ts) hsplit _ hne hstart hstop hpay htail, hpos => by
+    intro t ht
+    simp only [List.mem_cons] at ht
+    rcases ht with rfl | ht
+    · refine ⟨before ++ ws, consumed, rest, by rw [hsplit]; simp, hne, by rw [hstart, hpos, utf8Len_append], ?_, hpay⟩
+      rw [hstop, hstart, hpos, utf8Len_append, utf8Len_append]
+    · have := spans_exact t0.stop rest ts (before ++ ws ++ consumed) htail
+        (by rw [hstop, hstart, hpos, utf8Len_append, utf8Len_append]) t ht
+      obtain ⟨pre, mid, post, h1, h2⟩ := this
+      exact ⟨pre, mid, post, by rw [← h1, hsplit]; simp, h2⟩
+
+/-- Strictly increasing, non-overlapping spans. -/
+theorem spans_increasing : ∀ (pos : Nat) (cs : Text) (toks : List SpTok), Tiling pos cs toks →
+    ∀ t ∈ toks, pos ≤ t.start ∧ t.start < t.stop
+  | _, _, _, .done _ => by intro t ht; cases ht
+  | pos, cs, _, .tok (consumed := consumed) (t := t0) (ts := ts) _ _ hne hstart hstop _ htail => by
+    intro t ht
+    have hpos : 0 < utf8Len consumed := by
+      cases consumed with
+      | nil => exact absurd rfl hne
+      | cons c r => simp [utf8Len]; have := Char.utf8Size_pos c; omega
+    simp only [List.mem_cons] at ht
+    rcases ht with rfl | ht
+    · omega
+    · have := spans_increasing t0.stop _ ts htail t ht
+      omega
+
+/-! ## Totality of the tokenizer (shared with C01) -/
+theorem covers_shorter {t : SpTok} {all consumed rest : Text} {start : Nat} (h : Covers t all consumed rest start) :
+    rest.length < all.length := by
+  have := congrArg List.length h.split
+  have hne : 0 < consumed.length := List.length_pos_iff.mpr h.nonempty
+  simp at this; omega
+
+theorem lexAll_total (regs : Regs) (fuel : Nat) : ∀ (cs : Text) (pos : Nat), cs.length < fuel →
+    (lexAll regs fuel cs pos).isPanic = false ∧ (lexAll regs fuel cs pos).isHang = false ∧ (lexAll regs fuel cs pos).isDeadlock = false := by
+  induction fuel with
+  | zero => intro cs pos h; omega
+  | succ fuel ih0 =>
+    intro cs pos h
+    rw [lexAll_succ]
+    have hlen := span_length_le isWs cs
+    cases hrest : (span isWs cs).2 with
+    | nil => exact ⟨rfl, rfl, rfl⟩
+    | cons c cs' =>
+      rw [hrest] at hlen
+      simp only
+      have hnf := lexOne_noFault regs c cs' (pos + utf8Len (span isWs cs).1)
+      cases hl : lexOne regs c cs' (pos + utf8Len (span isWs cs).1) with
+      | ok p =>
+        obtain ⟨t, rest'⟩ := p
+        simp only [Res.bind_ok]
+        obtain ⟨consumed, hc⟩ := lexOne_spec regs c cs' _ t rest' hl
+        have hshort := covers_shorter hc
+        have ih := ih0 rest' t.stop (by simp at hlen hshort; omega)
+        cases hr : lexAll regs fuel rest' t.stop <;> rw [hr] at ih <;> simp_all [Res.isPanic, Res.isHang, Res.isDeadlock, Res.bind]
+      | err e => exact ⟨rfl, rfl, rfl⟩
+      | unmodelled => exact ⟨rfl, rfl, rfl⟩
+      | panic => rw [hl] at hnf; simp [Res.isPanic] at hnf
+      | hang => rw [hl] at hnf; simp [Res.isHang] at hnf
+      | deadlock => rw [hl] at hnf; simp [Res.isDeadlock] at hnf
+
+/-- **The tokenizer is total**: for every input and every operator set it returns tokens or an
+`Err` — never a panic (no slice can fall inside a character: offsets are prefix lengths), never a
+hang (the fuel `length + 1` is always enough). -/
+theorem tokenize_total (regs : Regs) (s : Text) :
+    (tokenize regs s).isPanic = false ∧ (tokenize regs s).isHang = false ∧ (tokenize regs s).isDeadlock = false :=
+  lexAll_total regs _ s 0 (by omega)
+
+/-! ## Classification by the documented rules -/
+
+/-- An operator set in which every registered operator that starts with an operator character has
+all its non-empty prefixes registered too. -/
+def SymClosed (isOp : Text → Bool) : Prop :=
+  ∀ (c : Char) (a : Text) (d : Char), isSpecialStart c = true → isOp ((c :: a) ++ [d]) = true → isOp (c :: a) = true
+
+theorem closed_prefix (isOp : Text → Bool) (hc : SymClosed isOp) (c : Char) (hs : isSpecialStart c = true) :
+    ∀ (b a : Text), isOp ((c :: a) ++ b) = true → b ≠ [] → isOp (c :: a) = true
+  | [], a, _, hb => absurd rfl hb
+  | [d], a, h, _ => hc c a d hs h
+  | d :: e :: b', a, h, _ => by
+    have h' : isOp ((c :: (a ++ [d])) ++ (e :: b')) = true := by simpa using h
+    have := closed_prefix isOp hc c hs (e :: b') (a ++ [d]) h' (by simp)
+    exact hc c a d hs (by simpa using this)
+
+/-- **Longest match**: under prefix closure, the symbolic operator token is the longest registered
+operator the input continues with — no longer prefix of the remaining input is a registered operator. -/
+theorem longest_match (isOp : Text → Bool) (hc : SymClosed isOp) (c : Char) (hs : isSpecialStart c = true) (cs : Text)
+    (p : Text) (hp : p.isPrefixOf (c :: cs) = true) (hlen : (extendOp isOp [c] cs).1.length < p.length) : isOp p = false := by
+  obtain ⟨ext, h1, h2⟩ := extendOp_spec isOp cs [c]
+  -- p = o ++ d :: q where the rest starts with d
+  have hpre : ∃ q, c :: cs = p ++ q := by
+    have := List.isPrefixOf_iff_prefix.mp hp
+    obtain ⟨q, hq⟩ := this
+    exact ⟨q, hq.symm⟩
+  obtain ⟨q, hq⟩ := hpre
+  have hall : c :: cs = (extendOp isOp [c] cs).1 ++ (extendOp isOp [c] cs).2 := by
+    rw [h1, List.append_assoc, ← h2]; rfl
+  -- o is a proper prefix of p
+  have hop : ∃ d r, p = (extendOp isOp [c] cs).1 ++ d :: r ∧ ∃ r2, (extendOp isOp [c] cs).2 = d :: r2 := by
+    have e : p ++ q = (extendOp isOp [c] cs).1 ++ (extendOp isOp [c] cs).2 := by rw [← hq, ← hall]
+    have := List.append_eq_append_iff.mp e
+    rcases this with ⟨a', ha1, ha2⟩ | ⟨c', hc1, hc2⟩
+    · -- o = p ++ a' : impossible since o shorter than p
+      have := congrArg List.length ha1
+      simp at this; omega
+    · cases c' with
+      | nil => simp at hc1; have := congrArg List.length hc1; omega
+      | cons d r => exact ⟨d, r, hc1, ⟨r ++ q, by rw [hc2]; simp⟩⟩
+  obtain ⟨d, r, hpd, r2, hr2⟩ := hop
+  have hstop := extendOp_stop isOp cs [c] d r2 hr2
+  cases hb : isOp p with
+  | false => rfl
+  | true =>
+    rw [hpd, h1] at hb
+    have hb' : isOp ((c :: ext) ++ (d :: r)) = true := by simpa using hb
+    cases r with
+    | nil => rw [h1] at hstop; simp at hstop hb'; rw [hb'] at hstop; cases hstop
+    | cons e r' =>
+      have h3 : isOp ((c :: (ext ++ [d])) ++ (e :: r')) = true := by simpa using hb'
+      have := closed_prefix isOp hc c hs (e :: r') (ext ++ [d]) h3 (by simp)
+      rw [h1] at hstop
+      simp at hstop this
+      rw [this] at hstop; cases hstop
+
+theorem alookup_mem {β : Type} (k : Name) : ∀ (l : List (Name × β)), (alookup k l).isSome = true → k ∈ l.map (·.1)
+  | [], h => by simp at h
+  | (k', v) :: r, h => by
+    rw [alookup_cons] at h
+    by_cases hk : k' = k
+    · simp [hk]
+    · simp only [hk, if_false] at h; simp [alookup_mem k r h]
+
+theorem mem_alookup {β : Type} (k : Name) : ∀ (l : List (Name × β)), k ∈ l.map (·.1) → (alookup k l).isSome = true
+  | [], h => by simp at h
+  | (k', v) :: r, h => by
+    rw [alookup_cons]
+    by_cases hk : k' = k
+    · simp [hk]
+    · simp only [hk, if_false]; simp at h; rcases h with h | h
+      · exact absurd h.symm hk
+      · obtain ⟨b, hb⟩ := h; exact mem_alookup k r (by simp; exact ⟨b, hb⟩)
+
+theorem alookup_isSome_iff {β : Type} (k : Name) (l : List (Name × β)) : (alookup k l).isSome = true ↔ k ∈ l.map (·.1) :=
+  ⟨alookup_mem k l, mem_alookup k l⟩
+
+theorem builtin_pre_names : Regs.builtin.pre.map (·.1) = Gen.prefixNames := by
+  simp [Regs.builtin, List.map_map, Function.comp_def]
+theorem builtin_post_names : Regs.builtin.post.map (·.1) = Gen.postfixNames := by
+  simp [Regs.builtin, List.map_map, Function.comp_def]
+theorem builtin_inf_names : Regs.builtin.inf.map (·.1) = Gen.infixTable.map (·.1) := by
+  simp [Regs.builtin, List.map_map, Function.comp_def]
+
+theorem builtin_isOp_iff (n : Name) : Regs.builtin.isOp n = true ↔ n ∈ EE.Tie.allOps := by
+  unfold Regs.isOp Regs.isPrefix Regs.isInfix Regs.isPostfix Regs.isTernaryOp EE.Tie.allOps
+  rw [Bool.or_eq_true, Bool.or_eq_true, Bool.or_eq_true, alookup_isSome_iff, alookup_isSome_iff, alookup_isSome_iff,
+    builtin_pre_names, builtin_post_names, builtin_inf_names]
+  simp only [List.mem_append, Bool.or_eq_true, beq_iff_eq, List.mem_cons, List.mem_nil_iff, or_false]
+  constructor
+  · rintro (((h | h) | h) | h)
+    · exact Or.inl (Or.inl (Or.inr h))
+    · exact Or.inl (Or.inl (Or.inl h))
+    · exact Or.inl (Or.inr h)
+    · exact Or.inr h
+  · rintro (((h | h) | h) | h)
+    · exact Or.inl (Or.inl (Or.inr h))
+    · exact Or.inl (Or.inl (Or.inl h))
+    · exact Or.inl (Or.inr h)
+    · exact Or.inr h
+
+/-- The table fact (regenerated, `decide`d): dropping the last character of a registered symbolic
+operator of length ≥ 2 gives a registered operator. -/
+theorem builtin_droplast : ∀ n ∈ EE.Tie.allOps, (match n with | c :: _ => isSpecialStart c | [] => false) = true →
+    2 ≤ n.length → n.dropLast ∈ EE.Tie.allOps := by decide
+
+/-- The built-in operator set is prefix-closed, so `longest_match` applies to it. -/
+theorem builtin_closed : SymClosed Regs.builtin.isOp := by
+  intro c a d hs h
+  rw [builtin_isOp_iff] at h ⊢
+  have := builtin_droplast _ h (by simpa using hs) (by simp)
+  rw [show (c :: a) ++ [d] = (c :: a) ++ [d] from rfl, List.dropLast_concat] at this
+  exact this
+
+/-- Word operators only as whole words: in the identifier branch an operator token is produced
+exactly when the **maximal run up to whitespace or a delimiter** is a registered operator, and it
+is that whole run. -/
+theorem word_operator_whole_word (regs : Regs) (c : Char) (cs : Text) (start : Nat) :
+    (regs.isOp (c :: (span notWsDelim cs).1) = true → (lexOther regs c cs start).1.tok = .op (c :: (span notWsDelim cs).1)) ∧
+    (regs.isOp (c :: (span notWsDelim cs).1) = false →
+      (lexOther regs c cs start).1.tok = classifyAtom (c :: (span isParamCh cs).1) (span isParamCh cs).2) := by
+  constructor <;> intro h <;> simp [lexOther, h]
+
+/-- `true/True/false/False` are booleans; a name followed (after optional whitespace) by `(` is a
+function name; any other name is a reference. -/
+theorem atom_classes (atom rest : Text) :
+    (atom = ['t', 'r', 'u', 'e'] ∨ atom = ['T', 'r', 'u', 'e'] → classifyAtom atom rest = .bool true) ∧
+    (atom = ['f', 'a', 'l', 's', 'e'] ∨ atom = ['F', 'a', 'l', 's', 'e'] → classifyAtom atom rest = .bool false) ∧
+    (atom ≠ ['t', 'r', 'u', 'e'] → atom ≠ ['T', 'r', 'u', 'e'] → atom ≠ ['f', 'a', 'l', 's', 'e'] → atom ≠ ['F', 'a', 'l', 's', 'e'] →
+      classifyAtom atom rest = if nextIsOpenParen rest then .func atom else .ref atom) := by
+  refine ⟨?_, ?_, ?_⟩
+  · rintro (rfl | rfl) <;> rfl
+  · rintro (rfl | rfl) <;> rfl
+  · intro h1 h2 h3 h4
+    simp [classifyAtom, h1, h2, h3, h4]
+
+/-! Witnesses, kernel-checked, incl. a multi-byte character right after an operator character. -/
+example : tokenize Regs.builtin ['+', 'é'] = .ok [⟨.op ['+'], 0, 1⟩, ⟨.ref ['é'], 1, 3⟩] := by rfl
+example : tokenize Regs.builtin ['a', '<', '<', '=', '1'] = .ok [⟨.ref ['a'], 0, 1⟩, ⟨.op ['<', '<', '='], 1, 4⟩, ⟨.num ⟨false, 1, 0⟩, 4, 5⟩] := by rfl
+example : tokenize Regs.builtin "'a\"b' f (".toList = .ok [⟨.str "a\"b".toList, 0, 5⟩, ⟨.func ['f'], 6, 7⟩, ⟨.delim .openParen, 8, 9⟩] := by rfl
+
 end EE.Props.C10
